@@ -209,22 +209,22 @@ theorem raw_closed_U (d a c : Bytes) (h : RawOKU d a c) :
       startTok (lowerName d) d (attrsOf as ++ trail) := by
     simp [startTok, kindOf, S, TagEnd.text, List.append_assoc]
   rw [hstart] at hst1
-  have hxlen : x.length = S.length + c.length + E.length := by simp [x]
+  have hxlen : x.length = S.length + c.length + E.length := by simp [x]; omega
   by_cases hcne : c = []
   · -- no content: `next` goes straight to the end tag
     subst hcne
     have hhasE : Has t2 t2.rawE E := by simpa using hhas2
-    have cf2 := rawtext_empty_closed_form t2 d inv2.ok e2 (by rw [tg2]) htagne (by rw [tg2]; exact hpl) hn hhasE
+    have cf2 := rawtext_empty_closed_form t2 d inv2.ok e2 (by rw [tg2]; rfl) htagne (by rw [tg2]; exact hpl) hn hhasE
     obtain ⟨u', hce, h1, h2, h3, h4⟩ := endStep t2 inv2 e2 b2 (by rw [cd2]; rfl) hhasE
       (by rw [r2, hrE0, hxlen]; simp) cf2
-    refine ⟨u', ?_, by simpa [x] using h1, h2, h3, h4, by simp [x, S]⟩
+    refine ⟨u', ?_, by simpa [x] using h1, h2, h3, h4, by simp [x, S, E, textToks, TagEnd.text]; omega⟩
     simp only [textToks, List.isEmpty_nil, if_true, List.nil_append]
     have : S ++ [] ++ E = x := by simp [x]
     rw [this, closedEnd_cons hst1 pc1.err]
     exact hce
   · -- the raw text, then the end tag
     have hhasC : Has t2 t2.rawE (c ++ [60, 47] ++ d ++ [62]) := by simpa [E, List.append_assoc] using hhas2
-    have cf2 := rawtext_closed_form t2 d c 62 inv2.ok e2 (by rw [tg2]) htagne (by rw [tg2]; exact hpl)
+    have cf2 := rawtext_closed_form t2 d c 62 inv2.ok e2 (by rw [tg2]; rfl) htagne (by rw [tg2]; exact hpl)
       (by rw [tg2]; exact TagOk_lower_of_nameOK hn) hc hcne (by decide) hhasC
     obtain ⟨pc2, _, _⟩ := cf2
     have f2 : StepFacts t2 .text c [] := ⟨hasA_of_has hhas2.left, pc2.token, pc2.rawE, pc2.err, pc2.rawTag, pc2.cdata⟩
@@ -234,7 +234,9 @@ theorem raw_closed_U (d a c : Bytes) (h : RawOKU d a c) :
     have cf3 := end_tag_closed_form (next t2) d inv3.ok pc2.err pc2.rawTag hn hhas3
     obtain ⟨u', hce, h1, h2, h3, h4⟩ := endStep (next t2) inv3 pc2.err (pc2.buf.trans b2)
       (by rw [pc2.cdata, cd2]; rfl) hhas3 (by rw [pc2.rawE, r2, hrE0, hxlen]; omega) cf3
-    refine ⟨u', ?_, by simpa [x] using h1, h2, h3, h4, by simp [x, S]⟩
+    have hclen : 0 < c.length := List.length_pos_iff.mpr hcne
+    have htl : (textToks c).length ≤ 1 := by unfold textToks; split <;> simp
+    refine ⟨u', ?_, by simpa [x] using h1, h2, h3, h4, by simp [x, S, E, TagEnd.text]; omega⟩
     have hemp : c.isEmpty = false := by cases c with
       | nil => exact absurd rfl hcne
       | cons _ _ => rfl
